@@ -428,6 +428,10 @@ impl<'arena> PrettyFormatter<'arena> {
     fn with_comments(
         &self, comments: &'arena [LeadingComment], before_block: bool, document: RcDoc<'arena>,
     ) -> RcDoc<'arena> {
+        let comments = comments
+            .iter()
+            .filter(|comment| !self.copied_verbatim(comment.comment()))
+            .collect::<Vec<_>>();
         comments
             .iter()
             .enumerate()
@@ -486,8 +490,34 @@ impl<'arena> PrettyFormatter<'arena> {
         .append(document)
     }
 
+    /// Whether a comment lies in source text that a `@[format(verbatim)]`
+    /// annotation copies unchanged. Such a comment is part of the copy, also
+    /// when the entity it is anchored to lies outside the annotated term (a
+    /// comment before a closing delimiter leads the next entity after it).
+    fn copied_verbatim(&self, comment: &SurfaceComment) -> bool {
+        self.source.is_some()
+            && self.arena.terms.iter().any(|(term, body)| {
+                let Term::Meta(MetaT(meta, inner)) = body else {
+                    return false;
+                };
+                let verbatim = meta.specialize::<FormatMeta>().ok().flatten();
+                if !verbatim.is_some_and(|directive| directive.verbatim) {
+                    return false;
+                }
+                let (start, _) = self.spans[&EntityId::Term(*term)].get_cursor1();
+                let (_, end) = self.spans[&EntityId::Term(*inner)].get_cursor1();
+                start <= comment.range().start && comment.range().end <= end
+            })
+    }
+
     fn with_trailing_comments(&self, entity: EntityId, document: RcDoc<'arena>) -> RcDoc<'arena> {
-        self.arena.trivia.trailing_comments(entity).iter().fold(document, |document, comment| {
+        let comments = self
+            .arena
+            .trivia
+            .trailing_comments(entity)
+            .iter()
+            .filter(|comment| !self.copied_verbatim(comment.comment()));
+        comments.fold(document, |document, comment| {
             let separation = if comment.comment().as_text().is_some()
                 && comment.separation_before() == LineSeparation::SameLine
             {
